@@ -70,7 +70,7 @@ unsafe fn same_target<const L: usize>() {
     }
     let mut k = 0;
     while k < 16 {
-        assert!(sim::ENT[0].bytes[k] == orig[k], "VERIF[C02]: entry bytes differ from the original after the injector is dropped");
+        assert!(sim::ENT[0].bytes[k] == orig[k], "VERIF[C02,C04]: entry bytes differ from the original after the injector is dropped (whoever takes the lock next would not see original code)");
         k += 1;
     }
     assert!(sim::all_clean(), "VERIF[C17]: restored bytes are not covered by a later flush");
